@@ -35,7 +35,25 @@ type bMon struct {
 	cancelling bool
 	startsAfterCancel     [8]int // per thread
 	newAttemptAfterCancel bool
+	checkSettled bool
+	tids  [8]int
+	ntids int
 	minStarts int // items must have been started at least this often when post runs (1 in continue mode)
+}
+
+// threadIndex maps a thread id (small in the engine, a goroutine id natively) to a dense index
+func (m *bMon) threadIndex(tid int) int {
+	for i := 0; i < m.ntids; i++ {
+		if m.tids[i] == tid {
+			return i
+		}
+	}
+	if m.ntids < len(m.tids) {
+		m.tids[m.ntids] = tid
+		m.ntids++
+		return m.ntids - 1
+	}
+	return len(m.tids) - 1
 }
 
 func bConfig(m *bMon) {
@@ -76,9 +94,11 @@ func bNode(m *bMon, exec func(ctx context.Context, item Result) (Result, error))
 			vMon(func() {
 				m.posts++
 				m.postItems, m.postRes = items, results
-				vAssert(m.inflight == 0, "post-runs-after-every-item-has-settled")
-				for i := 0; i < m.n; i++ {
-					vAssert(m.started[i] == m.finished[i] && m.started[i] >= m.minStarts, "post-runs-after-every-item-has-settled")
+				if m.checkSettled { // C06's clause; the other batch harnesses only record
+					vAssert(m.inflight == 0, "post-runs-after-every-item-has-settled")
+					for i := 0; i < m.n; i++ {
+						vAssert(m.started[i] == m.finished[i] && m.started[i] >= m.minStarts, "post-runs-after-every-item-has-settled")
+					}
 				}
 			})
 			return "done", nil
